@@ -596,6 +596,12 @@ func c06Run(r *Run) {
 			r.bad(key, fd.Pos(), "stores the value it is given without copying an *ArrayValue: the container and the source keep sharing one array object, so append/unset/sort through one name shows through the other")
 		}
 	}
+	// a value read out of one variable slot reaches another frame's slot through a copying sink, never
+	// wrapped as it is into a fresh cell (NewZVal(v) / NewNamedZVal(name, v) handed to the frame): the
+	// closure capture `use ($cfg)` and similar frame-to-frame copies are assignments
+	if np := r.pkg("node"); np != nil {
+		c06SlotToSlot(r, np)
+	}
 	// array literal: every element obtained from a child evaluation is copied before it is stored
 	if np := r.pkg("node"); np != nil {
 		info := np.TypesInfo
@@ -1210,4 +1216,80 @@ func c06FreshArrayCell(info *types.Info, fd *ast.FuncDecl, e ast.Expr) bool {
 		return true
 	})
 	return n > 0 && fresh
+}
+
+// c06SlotToSlot: see the call site. Sources are the results of Context.GetIndexValue / GetVariableValue;
+// the judged uses are (a) an argument of a cell constructor of package data (a function that returns
+// *ZVal and takes a Value) — a bypass — and (b) an argument of a Context method that stores a value
+// (Set…Value) — the copying route.
+func c06SlotToSlot(r *Run, np *packages.Package) {
+	info := np.TypesInfo
+	dataPath := modPath + "/data"
+	isCtx := func(t types.Type) bool { return t != nil && isNamed(t, dataPath, "Context") }
+	for _, fd := range funcDecls(np) {
+		if fd.Body == nil {
+			continue
+		}
+		src := map[types.Object]bool{}
+		ast.Inspect(fd.Body, func(n ast.Node) bool {
+			as, ok := n.(*ast.AssignStmt)
+			if !ok || len(as.Rhs) != 1 {
+				return true
+			}
+			c, ok := ast.Unparen(as.Rhs[0]).(*ast.CallExpr)
+			if !ok {
+				return true
+			}
+			se, ok := ast.Unparen(c.Fun).(*ast.SelectorExpr)
+			if !ok || (se.Sel.Name != "GetIndexValue" && se.Sel.Name != "GetVariableValue") || !isCtx(info.TypeOf(se.X)) {
+				return true
+			}
+			if id, ok := as.Lhs[0].(*ast.Ident); ok && id.Name != "_" {
+				o := info.Defs[id]
+				if o == nil {
+					o = info.Uses[id]
+				}
+				if o != nil {
+					src[o] = true
+				}
+			}
+			return true
+		})
+		if len(src) == 0 {
+			continue
+		}
+		fk := funcKey(np, fd)
+		ast.Inspect(fd.Body, func(n ast.Node) bool {
+			c, ok := n.(*ast.CallExpr)
+			if !ok {
+				return true
+			}
+			uses := false
+			for _, a := range c.Args {
+				if id, ok := ast.Unparen(a).(*ast.Ident); ok && src[info.Uses[id]] {
+					uses = true
+				}
+			}
+			if !uses {
+				return true
+			}
+			cal := calleeFunc(info, c)
+			if cal == nil {
+				return true
+			}
+			sig := cal.Type().(*types.Signature)
+			switch {
+			case cal.Pkg() != nil && cal.Pkg().Path() == dataPath && sig.Recv() == nil && sig.Results().Len() == 1 && func() bool {
+				pt, ok := sig.Results().At(0).Type().(*types.Pointer)
+				return ok && isNamed(pt.Elem(), dataPath, "ZVal")
+			}():
+				r.bad(fk+"#slot-to-slot", c.Pos(), "a value read from a variable slot is wrapped into a fresh cell by "+cal.Name()+" instead of being stored through the copying SetVariableValue: an array captured or passed this way is one object in both frames, so a write in one frame shows through the other")
+			case sig.Recv() != nil && strings.HasPrefix(cal.Name(), "Set") && strings.HasSuffix(cal.Name(), "Value"):
+				if se, ok := ast.Unparen(c.Fun).(*ast.SelectorExpr); ok && isCtx(info.TypeOf(se.X)) {
+					r.ok(fk+"#slot-to-slot", c.Pos(), "a value read from a variable slot is stored into the other frame through "+cal.Name()+" (the copying sink)")
+				}
+			}
+			return true
+		})
+	}
 }
